@@ -167,6 +167,110 @@ def case_irrep_grid(case):
 
 
 # ------------------------------------------------------------------------------------------
+# 1b. sl2_irrep / sl2_to_so21 / Isometry.from_sl2 called ONE MATRIX AT A TIME (and on homogeneous stacks) for matrices
+#     with a zero pattern: the grid blocks above hand the library 65536 matrices at once, so a branch taken when
+#     np.any(b) / np.any(c) / ... is False FOR THE WHOLE ARRAY is never entered there
+# ------------------------------------------------------------------------------------------
+SP_VALS = [2.0, 0.5, -3.0, 0.25, 1.0]
+SP_VALS3 = [2.0, 0.5, -3.0]
+
+
+def sparse_family():
+    """2x2 matrices with a zero pattern and dyadic / small-integer entries (all products exact in float64):
+    diagonal, anti-diagonal, upper and lower triangular; scalar and non-scalar, determinant one and not."""
+    out = []
+    for t in SP_VALS:
+        for s in SP_VALS:
+            out.append(("diagonal", [[t, 0.0], [0.0, s]]))
+    for t in SP_VALS:
+        for s in SP_VALS:
+            out.append(("antidiagonal", [[0.0, t], [s, 0.0]]))
+    for t in SP_VALS3:
+        for u in SP_VALS3:
+            for s in SP_VALS3:
+                out.append(("upper", [[t, u], [0.0, s]]))
+                out.append(("lower", [[t, 0.0], [u, s]]))
+    return out
+
+
+def sparse_partners():
+    fam = sparse_family()
+    return [np.array(m, dtype="float64") for m in int_mats_2x2(1, (1, -1))] + \
+           [np.array(m, dtype="float64") for m in ([[2, 1], [3, 2]], [[2, 1], [1, 1]], [[1, 2], [3, 4]])] + \
+           [np.array(fam[i][1]) for i in (1, 7, 13, 26, 32, 50, 51, 77)]
+
+
+def case_irrep_single(case):
+    """One sparse matrix g, one target dimension n: value of sl2_irrep(g, n) (single call) against the action on binary
+    forms, the homomorphism law rho(g h) = rho(g) rho(h) and rho(h g) = rho(h) rho(g) for every partner h with every
+    image computed by its own single-matrix call, the same on a stack of matrices with the same zero pattern, and (n = 3)
+    through sl2_to_so21 and Isometry.from_sl2."""
+    from geometry_tools import lie
+    n, i = case["n"], case["i"]
+    fam = sparse_family()
+    pat, g = fam[i][0], np.array(fam[i][1])
+    v, t = [], 0
+    rg = lie.sl2_irrep(g.copy(), n)
+    t += 1
+    exp = np.array(R.sym_power(g, n), dtype="float64")
+    ok, d = close(rg, exp)
+    if not ok:
+        v.append({"key": "irrep-single/value/%s/n=%d" % (pat, n), "msg": "sl2_irrep(%s,%d) = %s, the action on binary forms gives %s" % (fmt(g), n, fmt(rg), fmt(exp))})
+    partners = sparse_partners()
+    nbad = 0
+    for h in partners:
+        rh = lie.sl2_irrep(h.copy(), n)
+        for side, prod, want_ in (("g.h", g @ h, lambda: rg @ rh), ("h.g", h @ g, lambda: rh @ rg)):
+            got = lie.sl2_irrep(prod, n)
+            t += 1
+            ok, d = close(got, want_())
+            if not ok:
+                nbad += 1
+                if nbad <= 1:
+                    v.append({"key": "irrep-single/homomorphism/%s/n=%d" % (pat, n),
+                              "msg": "single-matrix calls: sl2_irrep(%s,%d) != product of the images for g=%s (%s) h=%s: residual %.3g" % (side, n, fmt(g), pat, fmt(h), d)})
+        t += 1
+    # a stack all of whose matrices share the zero pattern, against per-matrix calls, and the law on the stack
+    same = [np.array(m) for p_, m in fam if p_ == pat]
+    k = [j for j, (p_, m) in enumerate(fam) if p_ == pat].index(i)
+    G = np.stack([same[(k + s) % len(same)] for s in (0, 1, 5)])
+    H = np.stack([partners[(i + s) % len(partners)] for s in (0, 3, 4)])
+    rG, rH = lie.sl2_irrep(G.copy(), n), lie.sl2_irrep(H.copy(), n)
+    t += 2
+    per = np.stack([lie.sl2_irrep(x.copy(), n) for x in G])
+    if rG.shape != per.shape or not close(rG, per)[0]:
+        v.append({"key": "irrep-single/stack-vs-single/%s/n=%d" % (pat, n), "msg": "sl2_irrep of a stack of %s matrices differs from the per-matrix calls, first matrix %s" % (pat, fmt(g))})
+    else:
+        for side, lhs, rhs in (("G.H", lie.sl2_irrep(G @ H, n), rG @ rH), ("H.G", lie.sl2_irrep(H @ G, n), rH @ rG)):
+            t += 1
+            if not close(lhs, rhs)[0]:
+                v.append({"key": "irrep-single/stack-homomorphism/%s/n=%d" % (pat, n), "msg": "sl2_irrep(%s) != product of images for a stack of %s matrices starting at %s" % (side, pat, fmt(g))})
+    if n == 3:
+        from geometry_tools import hyperbolic
+        sg = np.asarray(lie.sl2_to_so21(g.copy()))
+        ig = hyperbolic.Isometry.from_sl2(g.copy())
+        sbad = ibad = 0
+        for h in partners:
+            sh = np.asarray(lie.sl2_to_so21(h.copy()))
+            ih = hyperbolic.Isometry.from_sl2(h.copy())
+            t += 6
+            for side, prod, want_, iwant in (("g.h", g @ h, sg @ sh, ig @ ih), ("h.g", h @ g, sh @ sg, ih @ ig)):
+                got = np.asarray(lie.sl2_to_so21(prod))
+                if not close(got, want_)[0]:
+                    sbad += 1
+                    if sbad == 1:
+                        v.append({"key": "irrep-single/so21-homomorphism/%s" % pat, "msg": "sl2_to_so21(%s) != product of images for g=%s h=%s" % (side, fmt(g), fmt(h))})
+                gi_ = np.asarray(hyperbolic.Isometry.from_sl2(prod).proj_data)
+                wi_ = np.asarray(iwant.proj_data)
+                if not close(gi_, wi_)[0]:
+                    ibad += 1
+                    if ibad == 1:
+                        v.append({"key": "irrep-single/from_sl2-composition/%s" % pat, "msg": "Isometry.from_sl2(%s) != composition of the isometries for g=%s h=%s" % (side, fmt(g), fmt(h))})
+        nbad += sbad + ibad
+    return {"v": v[:6], "t": t, "o": "%s|%d|%d|%s" % (pat, n, nbad, np.round(rg[0], 4).tolist()), "nt": bool(g[0, 0] != g[1, 1] or g[0, 1] != 0 or g[1, 0] != 0)}
+
+
+# ------------------------------------------------------------------------------------------
 # 2. sl2_to_so21: homomorphism on {0,1,2}^8, form identity on {0..4}^4
 # ------------------------------------------------------------------------------------------
 def case_so21_grid(case):
@@ -1014,6 +1118,16 @@ def run(ctx):
                 cases.append({"n": n, "lo": lo, "hi": min(N, lo + BLOCK)})
         ctx.product("irrep-grid", "checks.c17:case_irrep_grid", cases,
                     domains={"n": "2..%d" % (4 if q else 6), "grid": "{0..n-1}^8 (entries of A and B)", "points": sum(c["hi"] - c["lo"] for c in cases)}, chunk=1)
+    if want("irrep-single"):
+        nf = len(sparse_family())
+        cases = [{"n": n, "i": i} for n in range(2, 7) for i in range(nf)]
+        ctx.assume("irrep-single: single-matrix and same-pattern-stack calls of sl2_irrep / sl2_to_so21 / Isometry.from_sl2 on matrices with "
+                   "zero entries (diagonal, anti-diagonal, triangular; any non-zero determinant: the maps are polynomial); compared with "
+                   "1e-9 (1 + max|exp|), all entries dyadic so the arithmetic is exact up to the fixed conjugation in sl2_to_so21")
+        ctx.product("irrep-single", "checks.c17:case_irrep_single", cases,
+                    domains={"n": "2..6", "g": "%d sparse matrices: diag(t,s), antidiag(t,s), t,s in %r; upper / lower triangular with entries in %r" % (nf, SP_VALS, SP_VALS3),
+                             "h": "%d partners: all integer matrices with entries in [-1,1] and det +-1, 3 dense integer matrices, 8 of the sparse family; both orders" % len(sparse_partners()),
+                             "calls": "every image by its own single-matrix call; stacks of 3 matrices with the same zero pattern; n = 3 also sl2_to_so21 and Isometry.from_sl2 / @"}, chunk=4)
     if want("so21-grid"):
         N = 3 ** 8
         cases = [{"what": "hom", "lo": 0, "hi": N}, {"what": "form"}]
